@@ -203,15 +203,13 @@ Qed.
 (* the branchy functions return Ok on such inputs (executed on the rational instance of
    the same polymorphic model; the sets are the planar / collinear sets above) *)
 Example C32_nonvacuous_model_runs :
-  (exists n, compute_normal Q QO [(3, 0, 0); (1, 1, 0); (1, 0, 1); (-1, 1, 1)]%Q (1 # 100000)
-             = Ok n) /\
-  (exists A, plane_matrix_pts Q QO [(0, 0, 0); (4, -3, 0); (0, 12, -4); (4, 9, -4)]%Q
-               (1 # 100000) (0, 0, 1)%Q = Ok A /\ A <> ident Q QO) /\
-  (exists A, line_matrix_pts Q QO [(1, 1, 0); (4, 5, 12); (-5, -7, -24)]%Q (0, 0, 1)%Q = Ok A
-             /\ A <> ident Q QO) /\
-  (exists n, compute_normals_1d Q QO [(1, 1, 0); (4, 5, 12); (-5, -7, -24)]%Q = Ok n) /\
-  (exists P, tn3_projection Q QO (3, 4, 12)%Q = Ok P) /\
-  (exists P, tn2_projection Q QO (3, -4)%Q = Ok P).
-Proof.
-  repeat split; eexists; try split; try (vm_compute; reflexivity); vm_compute; discriminate.
-Qed.
+  compute_normal Q QO [(3, 0, 0); (1, 1, 0); (1, 0, 1); (-1, 1, 1)]%Q (1 # 100000)
+    = Ok (1 # 3, 2 # 3, 2 # 3)%Q /\
+  is_ok (plane_matrix_pts Q QO [(0, 0, 0); (4, -3, 0); (0, 12, -4); (4, 9, -4)]%Q
+           (1 # 100000) (0, 0, 1)%Q) = true /\
+  is_ok (line_matrix_pts Q QO [(1, 1, 0); (4, 5, 12); (-5, -7, -24)]%Q (0, 0, 1)%Q) = true /\
+  is_ok (compute_normals_1d Q QO [(1, 1, 0); (4, 5, 12); (-5, -7, -24)]%Q) = true /\
+  tn3_projection Q QO (3, 4, 12)%Q
+    = Ok (-4 # 5, 3 # 5, 0, (-36 # 65, -48 # 65, 5 # 13), (3 # 13, 4 # 13, 12 # 13))%Q /\
+  tn2_projection Q QO (3, -4)%Q = Ok (4 # 5, 3 # 5, (3 # 5, -4 # 5))%Q.
+Proof. vm_compute. repeat split. Qed.
